@@ -98,17 +98,46 @@ def call(f, *a):
         return ("e", "%s: %s" % (type(e).__name__, str(e)[:80]))
 
 
-def forms(rng, query):
-    """the same query in every argument form the documentation names -> [(form name, python object)]"""
+def forms(rng, query, allow_bool=False):
+    """the same query in every argument form AND dtype the documentation names -> [(form name, python object)]
+    integer-valued queries are additionally given with integer types (Python int, np.int32/int64 scalars and arrays,
+    lists of ints, integer Series) and, where asked for, 0/1 queries as bool"""
     import numpy as np
     import pandas as pd
     if query[0] == "s":
         x = float(query[1])
-        return [("float", x), ("np.float64", np.float64(x))]
+        out = [("float", x), ("np.float64", np.float64(x))]
+        if query[1].denominator == 1:
+            out += [("int", int(query[1])), ("np.int64", np.int64(int(query[1]))), ("np.int32", np.int32(int(query[1])))]
+        return out
     xs = [float(v) for v in query[1]]
     idx = list(range(100, 100 + len(xs)))
     rng.shuffle(idx)
-    return [("list", list(xs)), ("ndarray", np.array(xs)), ("Series", pd.Series(xs, index=idx, dtype=float))]
+    out = [("list", list(xs)), ("ndarray", np.array(xs)), ("Series", pd.Series(xs, index=idx, dtype=float))]
+    if xs and all(v.denominator == 1 for v in query[1]):
+        ints = [int(v) for v in query[1]]
+        out += [("list[int]", list(ints)), ("ndarray[int64]", np.array(ints, dtype=np.int64)),
+                ("ndarray[int32]", np.array(ints, dtype=np.int32)), ("Series[int64]", pd.Series(ints, index=idx, dtype="int64")),
+                ("tuple[int]", tuple(ints))]
+        if allow_bool and all(v in (0, 1) for v in ints):
+            out += [("ndarray[bool]", np.array(ints, dtype=bool)), ("list[bool]", [bool(v) for v in ints])]
+    return out
+
+
+def intify(rng, qu, p=0.4, lo=None, hi=None):
+    """with probability p round the query to integers (kept inside [lo, hi] when given)"""
+    from math import floor
+    if rng.random() >= p:
+        return qu
+
+    def r(v):
+        w = Fr(floor(v + Fr(1, 2)))
+        if lo is not None:
+            w = max(w, Fr(floor(lo)))
+        if hi is not None:
+            w = min(w, Fr(floor(hi)))
+        return w
+    return ("s", r(qu[1])) if qu[0] == "s" else ("v", [r(v) for v in qu[1]])
 
 
 def dy(rng, lo, hi, den):
@@ -164,7 +193,7 @@ def cases_interextra(ctx, cs, n):
             rng.shuffle(order)       # interp1d sorts (assume_sorted=False): the table is a set of points
         prop = FluidPropertyInterExtra([float(t[i][0]) for i in order], [float(t[i][1]) for i in order])
         for vec in (False, True):
-            qu = gen_query(rng, t, vec)
+            qu = intify(rng, gen_query(rng, t, vec))
             for fname, arg in forms(rng, qu):
                 obs = call(prop.get_at_value, arg)
                 cs.add("interextra_get %s %s" % (ctab(t), cquery(qu)), obs,
@@ -173,15 +202,19 @@ def cases_interextra(ctx, cs, n):
                 ctx.count("interextra_value_" + fname)
         # integrals: scalar/scalar, vector/scalar, vector/vector (same length)
         for shape in ("ss", "vs", "sv", "vv"):
-            u = gen_query(rng, t, shape[0] == "v")
-            lq = gen_query(rng, t, shape[1] == "v")
+            u = intify(rng, gen_query(rng, t, shape[0] == "v"))
+            lq = intify(rng, gen_query(rng, t, shape[1] == "v"))
             if shape == "vv":
                 m = min(len(u[1]), len(lq[1]))
                 u, lq = ("v", u[1][:m]), ("v", lq[1][:m])
             fu, fl = forms(rng, u), forms(rng, lq)
-            for (na, a) in fu:
-                for (nb, b) in fl:
-                    if na == "Series" and nb == "Series":
+            if len(fu) * len(fl) > 12:
+                pairs_ = rng.sample([(x, y) for x in fu for y in fl], 12)
+            else:
+                pairs_ = [(x, y) for x in fu for y in fl]
+            for ((na, a), (nb, b)) in pairs_:
+                if True:
+                    if na.startswith("Series") and nb.startswith("Series"):
                         b = b.copy()
                         b.index = a.index          # pandas aligns on the index; same labels = element-wise
                     obs = call(prop.get_at_integral_value, a, b)
@@ -207,8 +240,10 @@ def cases_linear_constant(ctx, cs, n):
         obs = call(con.get_at_value)
         cs.add("constant_get %s None" % q(value), obs, {"fn": "FluidPropertyConstant.get_at_value", "arg_form": "none"})
         for vec in (False, True):
-            qu = gen_plain_query(rng, vec)
-            for fname, arg in forms(rng, qu):
+            qu = intify(rng, gen_plain_query(rng, vec), 0.5)
+            if rng.random() < 0.15:
+                qu = ("s", Fr(rng.randint(0, 1))) if qu[0] == "s" else ("v", [Fr(rng.randint(0, 1)) for _ in qu[1]])
+            for fname, arg in forms(rng, qu, allow_bool=True):
                 cs.add("linear_get %s %s %s" % (q(offset), q(slope), cquery(qu)), call(lin.get_at_value, arg),
                        {"fn": "FluidPropertyLinear.get_at_value", "slope": str(slope), "offset": str(offset),
                         "arg_form": fname, "arg": str(qu[1])})
@@ -217,13 +252,14 @@ def cases_linear_constant(ctx, cs, n):
                         "arg": str(qu[1])})
                 ctx.count("linear_constant_value_" + fname)
         for shape in ("ss", "vs", "sv", "vv"):
-            u = gen_plain_query(rng, shape[0] == "v")
-            lq = gen_plain_query(rng, shape[1] == "v")
+            u = intify(rng, gen_plain_query(rng, shape[0] == "v"))
+            lq = intify(rng, gen_plain_query(rng, shape[1] == "v"))
             if shape == "vv":
                 m = min(len(u[1]), len(lq[1]))
                 u, lq = ("v", u[1][:m]), ("v", lq[1][:m])
-            for (na, a) in forms(rng, u):
-                for (nb, b) in forms(rng, lq):
+            allp = [(x, y) for x in forms(rng, u) for y in forms(rng, lq)]
+            for ((na, a), (nb, b)) in (rng.sample(allp, 12) if len(allp) > 12 else allp):
+                if True:
                     cs.add("linear_int %s %s %s %s" % (q(offset), q(slope), cquery(u), cquery(lq)),
                            call(lin.get_at_integral_value, a, b),
                            {"fn": "FluidPropertyLinear.get_at_integral_value", "slope": str(slope), "offset": str(offset),
@@ -259,9 +295,9 @@ def cases_polynomial(ctx, cs, n):
         prop.prop_getter = np.poly1d([float(c) for c in coeffs])
         prop.prop_int_getter = np.polyint(prop.prop_getter)
         for vec in (False, True):
-            qu = gen_plain_query(rng, vec, den=4, span=6)
+            qu = intify(rng, gen_plain_query(rng, vec, den=4, span=6))
             for fname, arg in forms(rng, qu):
-                if fname == "Series":
+                if fname.startswith("Series"):
                     continue      # poly1d(Series) is numpy/pandas dispatch, not pandapipes code
                 cs.add("polynomial_get %s %s" % (qlist(coeffs), cquery(qu)), call(prop.get_at_value, arg),
                        {"fn": "FluidPropertyPolynominal.get_at_value", "coeffs": [str(c) for c in coeffs],
@@ -286,7 +322,11 @@ def cases_pump(ctx, cs, n):
             reg[0] = Fr(rng.randint(-8, 8), 2 ** 20)       # realistic: small leading coefficient
         pump = PumpStdType("p", np.array([float(c) for c in reg]))
 
+        int_flows = rng.random() < 0.3
+
         def flow():
+            if int_flows:
+                return Fr(rng.randint(-2, 2))             # integer-typed volume flows
             return Fr(rng.randint(-16, 16), 16 * 3600) * rng.choice([1, 1, 16, 225])
         qs = ("s", flow())
         qv = ("v", [flow() for _ in range(rng.randint(0 if rng.random() < 0.1 else 1, 6))])
@@ -476,7 +516,9 @@ def library_items(ctx):
             pts = [Fr(float(p)) for p in pts]             # the query itself is a float: exact rational
             for qu in [knots, ("v", pts)] + [("s", x) for x in rng.sample(xs, min(len(xs), 2))] + \
                       [("s", p) for p in rng.sample(pts, 2)]:
-                for fname, arg in forms(rng, (qu[0], [Fr(float(v)) for v in qu[1]] if qu[0] == "v" else Fr(float(qu[1]))))[:(2 if qu[0] == "v" else 1) if ctx.quick else 9]:
+                for fname, arg in forms(rng, (qu[0], [Fr(float(v)) for v in qu[1]] if qu[0] == "v" else Fr(float(qu[1])))):
+                    if ctx.quick and rng.random() > (0.45 if qu[0] == "v" else 0.3):
+                        continue
                     qq = (qu[0], [Fr(float(v)) for v in qu[1]]) if qu[0] == "v" else ("s", Fr(float(qu[1])))
                     items.append(["%s %s %s" % (model, rec, cquery(qq)), call(getter, arg),
                                   {"fn": "Fluid.get_" + prop, "fluid": fl, "arg_form": fname, "clause": "library_values",
@@ -655,6 +697,106 @@ def monitor_pipe_types(ctx):
             ctx.violation({"fn": "create_pipe", "clause": "std_type_reaches_pipe_unchanged"},
                           "pipe created from std type %s in a %s net has (inner, outer, k, u) = %s; Pipe.csv says %s"
                           % (d["std_type"], d["fluid"], d["cells"], lib), dict(d, library=lib))
+
+
+def monitor_user_pipe_types(ctx):
+    """user-defined pipe types of every shape (u_w_per_m2k given / u_w_per_mk given / neither), sequences of pipes
+    created through create_pipe and create_pipes with and without per-pipe overrides (k_mm=, u_w_per_m2k=); after
+    every call: the stored types are unchanged (deep snapshot of net.std_types) and the new rows carry the override
+    or else the type's own numbers"""
+    import copy
+    import math
+    import pandapipes as pp
+
+    def canon(d):
+        return {k: {kk: repr(vv) for kk, vv in sorted(v.items())} if isinstance(v, dict) else repr(v)
+                for k, v in sorted(d.items())}
+    try:
+        udef = tf.create_pipe_mapping()[2]
+        udef = float("nan") if udef is None else float(udef)
+    except Exception:
+        udef = 0.0
+    rng = ctx.rng
+    for it in range(8 if ctx.quick else 150):
+        net = pp.create_empty_network(fluid="water")
+        js = [pp.create_junction(net, 5, 300) for _ in range(4)]
+        types = {}
+        for shape in ("u_m2k", "u_mk", "none"):
+            inner = float(dy(rng, 20, 400, 4))
+            data = {"inner_diameter_mm": inner, "outer_diameter_mm": inner + float(dy(rng, 1, 40, 4)),
+                    "k_mm": float(dy(rng, 0, 1, 64))}
+            if shape == "u_m2k":
+                data["u_w_per_m2k"] = float(dy(rng, 0.25, 30, 16))
+            if shape == "u_mk":
+                data["u_w_per_mk"] = float(dy(rng, 0.125, 2, 64))
+            name = "user_%s_%d" % (shape, it)
+            pp.create_std_type(net, "pipe", name, dict(data))
+            types[name] = data
+        history = []
+        for step in range(rng.randint(4, 8)):
+            name = rng.choice(sorted(types))
+            over = {}
+            r = rng.random()
+            if r < 0.25:
+                over["k_mm"] = float(dy(rng, 1, 4, 16))
+            elif r < 0.5:
+                over["u_w_per_m2k"] = float(dy(rng, 40, 80, 8))
+            elif r < 0.6:
+                over = {"k_mm": float(dy(rng, 1, 4, 16)), "u_w_per_m2k": float(dy(rng, 40, 80, 8))}
+            fn = rng.choice(["create_pipe", "create_pipes", "create_pipes[list]"])
+            if fn == "create_pipes[list]":
+                over = {}     # with a list of types the deprecated override kwargs are popped by the first pipe only (noted)
+            before = canon(copy.deepcopy(net.std_types["pipe"]))
+            try:
+                if fn == "create_pipe":
+                    idx = [pp.create_pipe(net, js[0], js[1], std_type=name, length_km=0.5, **dict(over))]
+                    used = [name]
+                elif fn == "create_pipes":
+                    idx = list(pp.create_pipes(net, [js[0], js[1]], [js[2], js[3]], std_type=name, length_km=0.5, **dict(over)))
+                    used = [name, name]
+                else:
+                    other = rng.choice(sorted(types))
+                    idx = list(pp.create_pipes(net, [js[0], js[1]], [js[2], js[3]], std_type=[name, other], length_km=0.5,
+                                               **dict(over)))
+                    used = [name, other]
+            except Exception as e:
+                ctx.violation({"fn": fn, "clause": "std_type_reaches_pipe_unchanged", "raises": type(e).__name__},
+                              "%s(std_type=%r, %r) raises %r" % (fn, name, over, e), {"types": types, "history": history})
+                break
+            history.append({"fn": fn, "std_type": used, "override": over})
+            ctx.case({"fn": fn, "shape": name.split("_")[1], "override": sorted(over)}, bool(over) or step > 0)
+            ctx.count("user_pipe_type_" + fn)
+            after = canon(copy.deepcopy(net.std_types["pipe"]))
+            bad = None
+            if after != before:
+                changed = [t for t in after if after.get(t) != before.get(t)]
+                bad = "the stored standard type(s) %s changed: %s -> %s" % (
+                    changed, {t: before.get(t) for t in changed}, {t: after.get(t) for t in changed})
+            for i, tname in zip(idx, used):
+                d = types[tname]
+                exp_u = over.get("u_w_per_m2k", d.get("u_w_per_m2k", d["u_w_per_mk"] / (d["outer_diameter_mm"] * math.pi) * 1000.
+                                 if "u_w_per_mk" in d else udef))
+                exp = {"inner_diameter_mm": d["inner_diameter_mm"], "outer_diameter_mm": d["outer_diameter_mm"],
+                       "k_mm": over.get("k_mm", d["k_mm"]), "u_w_per_m2k": exp_u}
+                for col, val in exp.items():
+                    cell = float(net.pipe.at[i, col])
+                    ok = (math.isnan(cell) and math.isnan(val)) or cell == val or \
+                        (col == "u_w_per_m2k" and "u_w_per_mk" in d and "u_w_per_m2k" not in over
+                         and math.isclose(cell, val, rel_tol=1e-12))
+                    if not ok and bad is None:
+                        bad = "pipe %s created from type %s %s has %s = %r; type data%s give %r" % (
+                            i, tname, d, col, cell, " with override %r" % over if over else "", val)
+            if bad:
+                ctx.violation({"fn": "create_pipe(s)", "clause": "std_type_reaches_pipe_unchanged", "needs": "user-defined type"},
+                              bad + " (after the call sequence %s)" % history, {"types": types, "history": history})
+                break
+        else:
+            for tname, d in types.items():
+                got = pp.load_std_type(net, tname, "pipe")
+                if canon({"x": dict(got)}) != canon({"x": d}):
+                    ctx.violation({"fn": "load_std_type", "clause": "std_type_reaches_pipe_unchanged", "needs": "user-defined type"},
+                                  "load_std_type(%r) = %r, created as %r (after %s)" % (tname, dict(got), d, history),
+                                  {"types": types, "history": history})
 
 
 def monitor_laws(ctx):
@@ -849,7 +991,7 @@ def run(ctx):
                            "the least-squares polynomial (checked against an exact rational fit for the library pumps)")
     # ---- exact correspondence
     import pandapipes  # noqa: F401
-    n = 8 if ctx.quick else 120
+    n = 6 if ctx.quick else 120
     groups = [("interextra", cases_interextra, n), ("linear_constant", cases_linear_constant, n),
               ("polynomial", cases_polynomial, n), ("pump", cases_pump, 3 * n), ("mixture", cases_mixture, n)]
     for gname, fn, cnt in groups:
@@ -891,7 +1033,8 @@ def run(ctx):
                                                      "tolerance": "1e-12 relative (decimal data read as floats)"})
         if bad:
             report_mismatches(ctx, items, bad, "library")
-    for mon in (monitor_laws, monitor_class_laws, monitor_list_limits, monitor_pipe_types, monitor_real_mixtures):
+    for mon in (monitor_laws, monitor_class_laws, monitor_list_limits, monitor_pipe_types, monitor_user_pipe_types,
+                monitor_real_mixtures):
         try:
             mon(ctx)
         except Exception:
